@@ -13,7 +13,8 @@ import (
 func init() { register("C17", checkC17) }
 
 // listSpec: the confirmed scan of a list query. Key value patterns:
-//   literal canonical term, or "@Table@origin@.Field" = that column of the row fetched with this origin.
+//
+//	literal canonical term, or "@Table@origin@.Field" = that column of the row fetched with this origin.
 type listSpec struct {
 	table     string
 	keyType   string   // generated index key type ("" = unfiltered primary/other index without values)
@@ -22,37 +23,37 @@ type listSpec struct {
 }
 
 var querySpecs = map[string][]listSpec{
-	"base.Classes":               {{"Class", "", nil, true}},
-	"base.Projects":              {{"Project", "", nil, true}},
-	"base.Batches":               {{"Batch", "", nil, true}},
-	"base.AllBalances":           {{"BatchBalance", "", nil, true}},
-	"base.AllowedClassCreators":  {{"AllowedClassCreator", "", nil, true}},
-	"base.ClassesByAdmin":        {{"Class", "ClassAdminIndexKey", []string{"addr(req.Admin)"}, true}},
-	"base.ClassIssuers":          {{"ClassIssuer", "ClassIssuerClassKeyIssuerIndexKey", []string{"@Class@get:GetById(req.ClassId)@.Key"}, true}},
-	"base.ProjectsByClass":       {{"Project", "ProjectClassKeyIdIndexKey", []string{"@Class@get:GetById(req.ClassId)@.Key"}, true}},
-	"base.ProjectsByAdmin":       {{"Project", "ProjectAdminIndexKey", []string{"addr(req.Admin)"}, true}},
-	"base.ProjectsByReferenceId": {{"Project", "ProjectReferenceIdIndexKey", []string{"req.ReferenceId"}, true}},
-	"base.BatchesByClass":        {{"Batch", "BatchDenomIndexKey", []string{`(@Class@get:GetById(req.ClassId)@.Id + "-")`}, true}},
-	"base.BatchesByProject":      {{"Batch", "BatchProjectKeyIndexKey", []string{"@Project@get:GetById(req.ProjectId)@.Key"}, true}},
-	"base.BatchesByIssuer":       {{"Batch", "BatchIssuerIndexKey", []string{"addr(req.Issuer)"}, true}},
-	"base.Balances":              {{"BatchBalance", "BatchBalanceAddressBatchKeyIndexKey", []string{"addr(req.Address)"}, true}},
-	"base.BalancesByBatch":       {{"BatchBalance", "BatchBalanceBatchKeyAddressIndexKey", []string{"@Batch@get:GetByDenom(req.BatchDenom)@.Key"}, true}},
-	"base.CreditTypes":           {{"CreditType", "", nil, false}},
-	"base.AllowedBridgeChains":   {{"AllowedBridgeChain", "", nil, false}},
-	"base.Params":                {{"AllowedClassCreator", "", nil, false}, {"AllowedDenom", "", nil, false}, {"AllowedBridgeChain", "", nil, false}},
-	"basket.Baskets":             {{"Basket", "", nil, true}},
-	"basket.BasketBalances":      {{"BasketBalance", "BasketBalanceBasketIdBatchDenomIndexKey", []string{"@Basket@get:GetByBasketDenom(req.BasketDenom)@.Id"}, true}},
-	"basket.Basket":              {{"BasketClass", "BasketClassBasketIdClassIdIndexKey", []string{"@Basket@get:GetByBasketDenom(req.BasketDenom)@.Id"}, false}},
-	"marketplace.SellOrders":     {{"SellOrder", "", nil, true}},
-	"marketplace.AllowedDenoms":  {{"AllowedDenom", "", nil, true}},
+	"base.Classes":                   {{"Class", "", nil, true}},
+	"base.Projects":                  {{"Project", "", nil, true}},
+	"base.Batches":                   {{"Batch", "", nil, true}},
+	"base.AllBalances":               {{"BatchBalance", "", nil, true}},
+	"base.AllowedClassCreators":      {{"AllowedClassCreator", "", nil, true}},
+	"base.ClassesByAdmin":            {{"Class", "ClassAdminIndexKey", []string{"addr(req.Admin)"}, true}},
+	"base.ClassIssuers":              {{"ClassIssuer", "ClassIssuerClassKeyIssuerIndexKey", []string{"@Class@get:GetById(req.ClassId)@.Key"}, true}},
+	"base.ProjectsByClass":           {{"Project", "ProjectClassKeyIdIndexKey", []string{"@Class@get:GetById(req.ClassId)@.Key"}, true}},
+	"base.ProjectsByAdmin":           {{"Project", "ProjectAdminIndexKey", []string{"addr(req.Admin)"}, true}},
+	"base.ProjectsByReferenceId":     {{"Project", "ProjectReferenceIdIndexKey", []string{"req.ReferenceId"}, true}},
+	"base.BatchesByClass":            {{"Batch", "BatchDenomIndexKey", []string{`(@Class@get:GetById(req.ClassId)@.Id + "-")`}, true}},
+	"base.BatchesByProject":          {{"Batch", "BatchProjectKeyIndexKey", []string{"@Project@get:GetById(req.ProjectId)@.Key"}, true}},
+	"base.BatchesByIssuer":           {{"Batch", "BatchIssuerIndexKey", []string{"addr(req.Issuer)"}, true}},
+	"base.Balances":                  {{"BatchBalance", "BatchBalanceAddressBatchKeyIndexKey", []string{"addr(req.Address)"}, true}},
+	"base.BalancesByBatch":           {{"BatchBalance", "BatchBalanceBatchKeyAddressIndexKey", []string{"@Batch@get:GetByDenom(req.BatchDenom)@.Key"}, true}},
+	"base.CreditTypes":               {{"CreditType", "", nil, false}},
+	"base.AllowedBridgeChains":       {{"AllowedBridgeChain", "", nil, false}},
+	"base.Params":                    {{"AllowedClassCreator", "", nil, false}, {"AllowedDenom", "", nil, false}, {"AllowedBridgeChain", "", nil, false}},
+	"basket.Baskets":                 {{"Basket", "", nil, true}},
+	"basket.BasketBalances":          {{"BasketBalance", "BasketBalanceBasketIdBatchDenomIndexKey", []string{"@Basket@get:GetByBasketDenom(req.BasketDenom)@.Id"}, true}},
+	"basket.Basket":                  {{"BasketClass", "BasketClassBasketIdClassIdIndexKey", []string{"@Basket@get:GetByBasketDenom(req.BasketDenom)@.Id"}, false}},
+	"marketplace.SellOrders":         {{"SellOrder", "", nil, true}},
+	"marketplace.AllowedDenoms":      {{"AllowedDenom", "", nil, true}},
 	"marketplace.SellOrdersByBatch":  {{"SellOrder", "SellOrderBatchKeyIndexKey", []string{"@Batch@get:GetByDenom(req.BatchDenom)@.Key"}, true}},
 	"marketplace.SellOrdersBySeller": {{"SellOrder", "SellOrderSellerIndexKey", []string{"addr(req.Seller)"}, true}},
-	"data.AttestationsByIRI":      {{"DataAttestor", "DataAttestorIdAttestorIndexKey", []string{"@DataID@get:GetByIri(req.Iri)@.Id"}, true}},
-	"data.AttestationsByHash":     {{"DataAttestor", "DataAttestorIdAttestorIndexKey", []string{"@DataID@get:GetByIri(ContentHash.ToIRI(*req.ContentHash)#0)@.Id"}, true}},
-	"data.AttestationsByAttestor": {{"DataAttestor", "DataAttestorAttestorIndexKey", []string{"addr(req.Attestor)"}, true}},
-	"data.ResolversByIRI":         {{"DataResolver", "DataResolverIdResolverIdIndexKey", []string{"@DataID@get:GetByIri(req.Iri)@.Id"}, true}},
-	"data.ResolversByHash":        {{"DataResolver", "DataResolverIdResolverIdIndexKey", []string{"@DataID@get:GetByIri(ContentHash.ToIRI(*req.ContentHash)#0)@.Id"}, true}},
-	"data.ResolversByURL":         {{"Resolver", "ResolverUrlIndexKey", []string{"req.Url"}, true}},
+	"data.AttestationsByIRI":         {{"DataAttestor", "DataAttestorIdAttestorIndexKey", []string{"@DataID@get:GetByIri(req.Iri)@.Id"}, true}},
+	"data.AttestationsByHash":        {{"DataAttestor", "DataAttestorIdAttestorIndexKey", []string{"@DataID@get:GetByIri(ContentHash.ToIRI(*req.ContentHash)#0)@.Id"}, true}},
+	"data.AttestationsByAttestor":    {{"DataAttestor", "DataAttestorAttestorIndexKey", []string{"addr(req.Attestor)"}, true}},
+	"data.ResolversByIRI":            {{"DataResolver", "DataResolverIdResolverIdIndexKey", []string{"@DataID@get:GetByIri(req.Iri)@.Id"}, true}},
+	"data.ResolversByHash":           {{"DataResolver", "DataResolverIdResolverIdIndexKey", []string{"@DataID@get:GetByIri(ContentHash.ToIRI(*req.ContentHash)#0)@.Id"}, true}},
+	"data.ResolversByURL":            {{"Resolver", "ResolverUrlIndexKey", []string{"req.Url"}, true}},
 }
 
 func resolvePattern(st *State, pat string) string {
@@ -211,6 +212,23 @@ func checkC17(c *Ctx, e *Env) {
 						}
 						if ev.Kind == "call" && ev.Method == "append" {
 							appends++
+							// Q6 on the element appended in this iteration: each field named like a
+							// stored column is loaded from that column
+							if len(ev.Args) == 2 {
+								if els, ok := x.sliceElems(st, ev.Args[1]); ok {
+									for _, el := range els {
+										if ep, isPtr := el.(*Ptr); isPtr {
+											if eo := st.mem[ep.O]; eo != nil && eo.Kind != "row" {
+												for f2, v2 := range eo.F {
+													if n2 := strings.TrimPrefix(f2, "."); !strings.ContainsAny(n2, ".[") {
+														bad = append(bad, sameName(n2, st.canon(v2))...)
+													}
+												}
+											}
+										}
+									}
+								}
+							}
 						}
 					}
 					if hasValue {
